@@ -592,7 +592,7 @@ def run(ctx):
 
 def replay(ctx, path):
     import replaylib
-    r = replaylib.load("C01", path)
+    r = replaylib.load(ctx, path)
     if not r.get("op"):
         return replaylib.obligations("C01", run, r, path)
     okb, log, bd = vlib.c_build("asan", targets=["liblzma"])
